@@ -11,8 +11,12 @@ ALLOPS = ["+", "-", "*", "&", "|", "^", "<<", "//", "%", ">>", "neg", "abs"]
 def make_case(rng, ops=ALLOPS, depth=None, storages=("local", "array")):
     nvars = rng.randint(1, 4)
     decls, values = [], {}
+    def pick_fmt():
+        f = rng.choice(exprs.FMTS)
+        # 15%: a variable declared with an explicit byte order (the value it holds is the same, its bytes in memory differ)
+        return rng.choice("<>!") + f if rng.random() < 0.15 else f
     for k in range(nvars):
-        fmt = rng.choice(exprs.FMTS)
+        fmt = pick_fmt()
         name = f"v{k}"
         decls.append((name, rng.choice(storages), fmt))
         values[name] = exprs.rand_value(rng, fmt)
@@ -21,7 +25,9 @@ def make_case(rng, ops=ALLOPS, depth=None, storages=("local", "array")):
         kind = rng.choice(["r", "sr", "w", "sw"])
         regs.append((kind, no))
         reginit[no] = rng.choice(exprs.BOUNDARY64 + [rng.randint(-100, 100), rng.randrange(2 ** 64)])
-    dfmt = rng.choice(exprs.FMTS)
+    dfmt = pick_fmt()
+    if rng.random() < 0.1:
+        dfmt = rng.choice("<>!") + rng.choice("qQiI")
     decls.append(("d", rng.choice(storages), dfmt))
     values["d"] = exprs.rand_value(rng, dfmt)
     depth = depth if depth is not None else rng.choice([1, 1, 2, 2, 3])
@@ -233,7 +239,7 @@ class C01(GenCheck):
         return not isinstance(o, Err) and self.expected(case)[1] and len(list(nodes(case["expr"]))) >= 3
 
     def rule(self):
-        return ("random statements `d = expr` (15%: the destination is a register that the expression itself reads - left, right, below a unary operator): 1-4 operand variables of random formats (b B h H i I q Q, local or array-map), 0-2 registers (r/sr/w/sw) with "
+        return ("random statements `d = expr` (15%: the destination is a register that the expression itself reads - left, right, below a unary operator): 1-4 operand variables of random formats (b B h H i I q Q, 15% with an explicit byte order < > !, local or array-map), 0-2 registers (r/sr/w/sw) with "
                 "boundary contents, constants from the full 64-bit range, trees of depth 1-3 over + - * // % & | ^ << >> neg abs, boundary-heavy operand values; "
                 "built by the real generator, executed in the Coq ISA model; checked when the range precondition holds (always for ring-only trees); "
                 "non-trivial = checked and at least 3 nodes")
